@@ -181,7 +181,9 @@ Definition sort_rules (l : list crule) : list crule := map snd (sort_keyed (map 
 
 (* ------------------------------------------------------------------ results *)
 (* a SimpleRegoResult: the snippet (lines, constraint id, trace path, trace value), the trace node, the text of its path rules *)
-Record csimple := { cs_snip : snippet; cs_node : string; cs_rules : list string }.
+(* [cs_origin] is not text: it remembers which rule the result was generated from (the abstract result of Dnf.disp), so that
+   Proofs/CompileProofs.v can state what the branches of the text mean *)
+Record csimple := { cs_snip : snippet; cs_node : string; cs_rules : list string; cs_origin : simple catom cnest }.
 Inductive tres := TSimple (s : csimple) | TBranch (b : list csimple).
 Definition t_branch (t : tres) : list csimple := match t with TSimple s => [s] | TBranch b => b end.
 
@@ -208,27 +210,27 @@ Definition gen_atom (neg : bool) (a : catom) (c : nat) : csimple * nat :=
   | KCount name cond per_value k =>
       let n1 := S c in
       let (rule, c2) := fresh "path_set_rule" n1 in
-      ({| cs_snip := count_snippet x src rule n1 per_value neg cond k name tp; cs_node := x; cs_rules := [set_rule rule] |}, c2)
+      ({| cs_snip := count_snippet x src rule n1 per_value neg cond k name tp; cs_node := x; cs_rules := [set_rule rule]; cs_origin := SAtom neg a |}, c2)
   | KPattern pat =>
       let (rule, c1) := fresh "path_set_rule" c in
-      ({| cs_snip := pattern_snippet x src rule (S c1) neg (pattern_literal pat) (json_string pat) tp; cs_node := x; cs_rules := [set_rule rule] |}, S c1)
+      ({| cs_snip := pattern_snippet x src rule (S c1) neg (pattern_literal pat) (json_string pat) tp; cs_node := x; cs_rules := [set_rule rule]; cs_origin := SAtom neg a |}, S c1)
   | KDatatype _ dt =>
       let (rule, c1) := fresh "path_set_rule" c in
-      ({| cs_snip := datatype_snippet x src rule (S c1) neg dt tp; cs_node := x; cs_rules := [set_rule rule] |}, S c1)
+      ({| cs_snip := datatype_snippet x src rule (S c1) neg dt tp; cs_node := x; cs_rules := [set_rule rule]; cs_origin := SAtom neg a |}, S c1)
   | KNum _ cid op ktext =>
       let (rule, c1) := fresh "path_set_rule" c in
-      ({| cs_snip := numeric_snippet x src rule (S c1) neg cid op ktext tp; cs_node := x; cs_rules := [set_rule rule] |}, S c1)
+      ({| cs_snip := numeric_snippet x src rule (S c1) neg cid op ktext tp; cs_node := x; cs_rules := [set_rule rule]; cs_origin := SAtom neg a |}, S c1)
   | KIn vals =>
       let (rule, c3) := fresh "path_set_rule" (S (S c)) in
-      ({| cs_snip := in_snippet x src rule (S c) (S (S c)) neg vals tp; cs_node := x; cs_rules := [set_rule rule] |}, c3)
+      ({| cs_snip := in_snippet x src rule (S c) (S (S c)) neg vals tp; cs_node := x; cs_rules := [set_rule rule]; cs_origin := SAtom neg a |}, c3)
   | KContains all vals =>
       let (rule, c3) := fresh "path_set_rule" (S (S c)) in
-      ({| cs_snip := contains_snippet all x src rule (S c) (S (S c)) neg vals tp; cs_node := x; cs_rules := [set_rule rule] |}, c3)
+      ({| cs_snip := contains_snippet all x src rule (S c) (S (S c)) neg vals tp; cs_node := x; cs_rules := [set_rule rule]; cs_origin := SAtom neg a |}, c3)
   | KCmp name op src2 p2 =>
       let (ruleA, c1) := fresh "path_set_rule" c in
       let (ruleB, c2) := fresh "path_set_rule" c1 in
       ({| cs_snip := cmp_snippet x src ruleA src2 ruleB neg name op tp; cs_node := x;
-          cs_rules := [set_rule ruleA; path_rule (Some p2) false false x ruleB] |}, c2)
+          cs_rules := [set_rule ruleA; path_rule (Some p2) false false x ruleB]; cs_origin := SAtom neg a |}, c2)
   | KUnique arg =>
       let (rule, c1) := fresh "path_array_rule" c in
       let (arr, c2) := fresh "array_values" c1 in
@@ -240,7 +242,7 @@ Definition gen_atom (neg : bool) (a : catom) (c : nat) : csimple * nat :=
                                      (if xorb arg neg then "" else "not ") ++ "count(" ++ dup ++ ") > 0"];
                         sn_du := [(arr, [x]); (dup, [arr]); ("", [dup])];
                         sn_id := "uniqueValues"; sn_path := tp; sn_value := """negated"":" ++ bool_text neg; sn_value_uses := [] |};
-          cs_node := x; cs_rules := [path_rule (ca_path a) false true x rule] |}, c3)
+          cs_node := x; cs_rules := [path_rule (ca_path a) false true x rule]; cs_origin := SAtom neg a |}, c3)
   | KRego code _ =>
       let (rule, c1) := fresh "path_set_rule" c in
       let with_path := match ca_path a with Some _ => true | None => false end in
@@ -254,7 +256,7 @@ Definition gen_atom (neg : bool) (a : catom) (c : nat) : csimple * nat :=
                                                      chk ++ " = " ++ chk ++ "_array"] else [])
                                     ++ split_nl text ++ [res ++ (if neg then " == true" else " != true")];
                         sn_du := []; sn_id := "rego"; sn_path := tp; sn_value := """negated"":" ++ bool_text neg; sn_value_uses := [] |};
-          cs_node := focus; cs_rules := [set_rule rule] |}, c4)
+          cs_node := focus; cs_rules := [set_rule rule]; cs_origin := SAtom neg a |}, c4)
   end.
 
 (* ---- wrapBranch *)
@@ -312,7 +314,8 @@ Definition nested_simple (neg : bool) (qn : quant) (p : cnest) (rule : string) (
                                ++ [acc ++ " = " ++ acc ++ dec (List.length results); "# let's accumulate results"; agg ++ " = " ++ join " | " errs; test];
                    sn_du := []; sn_id := cid; sn_path := tp; sn_value := value; sn_value_uses := [] |};
      cs_node := parent;
-     cs_rules := path_rule (Some (cn_path p)) true false parent rule :: flat_map (fun b => flat_map cs_rules (t_branch b)) results |}.
+     cs_rules := path_rule (Some (cn_path p)) true false parent rule :: flat_map (fun b => flat_map cs_rules (t_branch b)) results;
+     cs_origin := SNested neg qn p (map (fun b => map cs_origin (t_branch b)) results) |}.
 
 (* ------------------------------------------------------------------ Dispatch *)
 Fixpoint gen_all (g : crule -> nat -> option (list tres * nat)) (l : list crule) (c : nat) : option (list (list tres) * nat) :=
